@@ -117,7 +117,7 @@ KfSplit(site, Correct, Defect) ==
 ---------------------------------------------------------------------------
 (* Primitive matchers (src/primitive.rs): one action                       *)
 
-LeafOps == {"just", "any", "oneof", "noneof", "sel", "end", "empty", "cust", "cfgjust"}
+LeafOps == {"just", "any", "oneof", "noneof", "sel", "end", "empty", "cust", "cfgjust", "cfgjustr"}
 
 CtxToks(c) ==
   CASE c[1] = "T" -> <<c[2]>>
@@ -147,7 +147,7 @@ LeafRes(g, c, ctx) ==
               fs |-> c + k, fe |-> IF TokAt(c + k) = "" THEN c + k ELSE c + k + 1, user |-> FALSE]
   IN
   CASE o = "just" -> just(g[2])
-    [] o = "cfgjust" -> just(CtxToks(ctx))
+    [] o \in {"cfgjust", "cfgjustr"} -> just(CtxToks(ctx))    \* owned, resp. through the `&T` ConfigParser impl
     [] o = "any" -> oneTok(TRUE, VT(t), {"any"})
     [] o = "oneof" -> oneTok(t \in SeqToSet(g[2]), VT(t), {"t:" \o x : x \in SeqToSet(g[2])})
     [] o = "noneof" -> oneTok(t \notin SeqToSet(g[2]), VT(t), {"else"})
